@@ -158,6 +158,8 @@ pub trait ByteLayer {
   fn raw_next_tablet(&mut self) -> Result<VNext<bool>, String>;
   /// write through the real writer, drain and decode what arrived on the other end
   fn send(&mut self, evs: &Vec<Event>) -> Result<Vec<Event>, String>;
+  /// after a send that reported malformed bytes: the events a consumer actually sees in them
+  fn take_actual(&mut self) -> Option<Vec<Event>> { None }
   /// make the next OS-level write of the real writer fail (0 EAGAIN, 1 EPIPE, 2 EBADF)
   fn sabotage_writer(&mut self, kind: u8);
   /// call the real writer and hand back its own verdict, nothing else
@@ -487,7 +489,7 @@ impl<'a> VerifDriver for Sim<'a> {
     }
     let seen = match self.bytes.as_mut() {
       None => evs.clone(),
-      Some(b) => match b.send(evs) { Ok(d) => d, Err(e) => { if self.byte_error.is_none() { self.byte_error = Some(e); } evs.clone() } }
+      Some(b) => match b.send(evs) { Ok(d) => d, Err(e) => { if self.byte_error.is_none() { self.byte_error = Some(e); } b.take_actual().unwrap_or_else(|| evs.clone()) } }
     };
     self.trace.push(Item::Send { evs: seen, t_out: self.now() });
     Ok(())
@@ -500,15 +502,15 @@ impl<'a> VerifDriver for Sim<'a> {
 // disagreement that belongs to another property the model adopts what the loop did and goes on.
 
 #[derive(Clone, Copy, Default, Debug)]
-pub struct EnB { pub c10: bool, pub c11: bool, pub c12: bool, pub c19: bool, pub c20: bool, pub c18: bool, pub c06: bool }
+pub struct EnB { pub c10: bool, pub c11: bool, pub c12: bool, pub c19: bool, pub c20: bool, pub c18: bool, pub c06: bool, pub c09: bool }
 impl EnB {
   pub fn only(p: &str) -> EnB {
     let mut e = EnB::default();
-    match p { "C10" => e.c10 = true, "C11" => e.c11 = true, "C12" => e.c12 = true, "C19" => e.c19 = true, "C20" => e.c20 = true, "C18" => e.c18 = true, "C06" => e.c06 = true, _ => {} }
+    match p { "C10" => e.c10 = true, "C11" => e.c11 = true, "C12" => e.c12 = true, "C19" => e.c19 = true, "C20" => e.c20 = true, "C18" => e.c18 = true, "C06" => e.c06 = true, "C09" => e.c09 = true, _ => {} }
     e
   }
   fn on(&self, label: &str) -> bool {
-    match &label[..3] { "C10" => self.c10, "C11" => self.c11, "C12" => self.c12, "C19" => self.c19, "C20" => self.c20, "C18" => self.c18, "C06" => self.c06, _ => false }
+    match &label[..3] { "C10" => self.c10, "C11" => self.c11, "C12" => self.c12, "C19" => self.c19, "C20" => self.c20, "C18" => self.c18, "C06" => self.c06, "C09" => self.c09, _ => false }
   }
 }
 
@@ -548,7 +550,11 @@ pub fn check_trace(l: &Layout, trace: &[Item], result: &Result<(), String>, en: 
   let mut first: Option<Violation> = None;
   macro_rules! report { ($label:expr, $at:expr, $detail:expr) => {{
     let lab: &str = $label;
-    if en.on(lab) { if first.is_none() { first = Some(Violation::new(lab, $at, $detail)); } } else { obs.other_property_disagreements += 1; }
+    // what the loop does with the mapper's repeat requests (C09) shows in the same places as C11's timer
+    let c09_alias = en.c09 && (lab == "C11-timeout" || lab == "C11-missing-chord" || lab == "C11-unexpected-chord");
+    if en.on(lab) { if first.is_none() { first = Some(Violation::new(lab, $at, $detail)); } }
+    else if c09_alias { if first.is_none() { first = Some(Violation::new("C09-loop-repeat-state", $at, $detail)); } }
+    else { obs.other_property_disagreements += 1; }
   }}; }
   macro_rules! report_cause { ($label:expr, $at:expr, $detail:expr, $cause:expr) => {{
     let lab: &str = $label;
